@@ -1,5 +1,6 @@
 import CryoCat.Lemmas.C15_ops
 import CryoCat.Lemmas.C15_bin
+import CryoCat.Lemmas.C15_hard
 /-! C15 — property theorems: tilt-stack operations are lossless selections / permutations of tilt images.
 
 Only theorems and non-vacuity examples; helper lemmas live in `Lemmas/C15*.lean`. Conventions of the model
@@ -8,7 +9,12 @@ opaque type parameters wherever the operation only moves data. -/
 namespace CryoCat.C15
 variable {α ι κ : Type}
 
-/-! ### translator obligations: what the source says today is the documented convention -/
+/-! ### translator obligations: what the source says today is the documented convention
+
+The generated file holds, for every function the property is about, a normalised dump of its WHOLE body (local variables
+alpha-renamed `v0, v1, …` in the order of their first binding, so a rename of a local changes nothing; docstrings, `print`
+calls and exception messages dropped). The literals below were written from the pinned source; an added, removed, reordered
+or edited statement breaks the corresponding theorem. -/
 
 theorem anchors_ok : Gen.C15.anchorsOk = true := by decide
 
@@ -16,47 +22,257 @@ theorem anchors_ok : Gen.C15.anchorsOk = true := by decide
 (axis 2), `'z'` the order of the tilts (axis 0) — each branch reverses exactly one axis -/
 theorem flip_table_documented : Gen.C15.flipTable = [("x", 1), ("y", 2), ("z", 0)] := by decide
 
-/-- `indices_load`: `indices - 1` under `if numbered_from_1` -/
+/-- `indices_load`: `indices = indices - 1` (a fresh array) under `if numbered_from_1`, then `return indices` -/
 theorem index_shift_documented : Gen.C15.indexShift = 1 ∧ Gen.C15.indexShiftGuard = "numbered_from_1" := by decide
 
-/-- `split_stack_even_odd`: `i % 2 == 0` goes to the even stack -/
-theorem even_rule_documented : Gen.C15.evenRemainder = 0 ∧ Gen.C15.evenBranch = "even_stack" := by decide
+/-- `split_stack_even_odd`: `i % 2 == 0` goes to the stack that is written to `_even.mrc` and returned first -/
+theorem even_rule_documented : Gen.C15.evenRemainder = 0 := by decide
 
 /-- `TiltStack.__init__` / `correct_order` / `write_out`: arrays are transposed by `(2,1,0)` iff `input_order == "xyz"`,
 files are read and written untransposed, the working order is `zyx`, the result is transposed by `(2,1,0)` iff the
 output order differs from it -/
 theorem order_handling_documented :
-    Gen.C15.inTransposeAxes = [2, 1, 0] ∧ Gen.C15.inTransposeWhen = "input_order=='xyz'"
-    ∧ Gen.C15.outTransposeAxes = [2, 1, 0] ∧ Gen.C15.outTransposeWhen = "self.current_order!=self.output_order"
+    Gen.C15.inTransposeAxes = [2, 1, 0] ∧ Gen.C15.inTransposeWhen = "input_order == 'xyz'"
+    ∧ Gen.C15.outTransposeAxes = [2, 1, 0] ∧ Gen.C15.outTransposeWhen = "self.current_order != self.output_order"
     ∧ Gen.C15.currentOrder = "zyx" ∧ Gen.C15.readTranspose = false ∧ Gen.C15.writeTranspose = false := by decide
 
 /-- `self.n_tilts, self.height, self.width = self.data.shape` -/
 theorem shape_unpack_documented : Gen.C15.shapeUnpack = ["n_tilts", "height", "width"] := by decide
 
-/-- `crop`: centre `size // 2`, start `centre - new // 2`, end `start + new`, rows sliced by the height window and
-columns by the width window; larger-than-stack requests are refused -/
-theorem crop_expressions_documented :
-    Gen.C15.cropExprs = [("(center_w,center_h)", "(ts.width//2,ts.height//2)"),
-      ("start_w", "int(center_w-int(new_width)//2)"), ("end_w", "int(start_w+int(new_width))"),
-      ("start_h", "int(center_h-int(new_height)//2)"), ("end_h", "int(start_h+int(new_height))"),
-      ("ts.data", "ts.data[:,start_h:end_h,start_w:end_w]")]
-    ∧ Gen.C15.cropGuards = ["new_width>ts.width", "new_height>ts.height"] := by decide
+/-- **Signature defaults the statement depends on**: indices are 1-based unless the caller says otherwise, arrays come in
+and go out as `x,y,n` unless the caller says otherwise; no output file, no crop size by default -/
+theorem defaults_documented :
+    Gen.C15.defaultNumberedFrom1 = true ∧ Gen.C15.defaultInputOrder = "xyz" ∧ Gen.C15.defaultOutputOrder = "xyz"
+    ∧ Gen.C15.signatures = 
+      [("crop", "tilt_stack, new_width, new_height, output_file, input_order, output_order"),
+          ("crop.new_width", "None"),
+          ("crop.new_height", "None"),
+          ("crop.output_file", "None"),
+          ("crop.input_order", "'xyz'"),
+          ("crop.output_order", "'xyz'"),
+          ("sort_tilts_by_angle", "tilt_stack, input_tilts, output_file, input_order, output_order"),
+          ("sort_tilts_by_angle.output_file", "None"),
+          ("sort_tilts_by_angle.input_order", "'xyz'"),
+          ("sort_tilts_by_angle.output_order", "'xyz'"),
+          ("remove_tilts", "tilt_stack, idx_to_remove, numbered_from_1, output_file, input_order, output_order"),
+          ("remove_tilts.numbered_from_1", "True"),
+          ("remove_tilts.output_file", "None"),
+          ("remove_tilts.input_order", "'xyz'"),
+          ("remove_tilts.output_order", "'xyz'"),
+          ("bin", "tilt_stack, binning_factor, output_file, input_order, output_order"),
+          ("bin.output_file", "None"),
+          ("bin.input_order", "'xyz'"),
+          ("bin.output_order", "'xyz'"),
+          ("split_stack_even_odd", "tilt_stack, output_file_prefix, input_order, output_order"),
+          ("split_stack_even_odd.output_file_prefix", "None"),
+          ("split_stack_even_odd.input_order", "'xyz'"),
+          ("split_stack_even_odd.output_order", "'xyz'"),
+          ("flip_along_axes", "tilt_stack, axes, output_file, input_order, output_order"),
+          ("flip_along_axes.output_file", "None"),
+          ("flip_along_axes.input_order", "'xyz'"),
+          ("flip_along_axes.output_order", "'xyz'"),
+          ("TiltStack.__init__", "self, tilt_stack, input_order, output_order"),
+          ("TiltStack.__init__.input_order", "'xyz'"),
+          ("TiltStack.__init__.output_order", "'xyz'"),
+          ("indices_load", "input_data, numbered_from_1"),
+          ("indices_load.numbered_from_1", "True"),
+          ("tlt_load", "input_tlt, sort_angles"),
+          ("tlt_load.sort_angles", "True")] := ⟨rfl, rfl, rfl, rfl⟩
 
-theorem sort_expressions_documented :
-    Gen.C15.sortExprs = [("tilt_angles", "ioutils.tlt_load(input_tilts,sort_angles=False)"),
-      ("sorted_indices", "np.argsort(tilt_angles)"), ("ts.data", "ts.data[sorted_indices,:,:]")] := by decide
+/-- what an omitted keyword means in the model the driver executes -/
+theorem defaults_resolve :
+    base1Of none = true ∧ inXyzOf none = true ∧ outZyxOf none = false
+    ∧ (∀ b, base1Of (some b) = b) ∧ (∀ b, inXyzOf (some b) = b) ∧ (∀ b, outZyxOf (some b) = b) := by
+  refine ⟨by decide, by decide, by decide, fun _ => rfl, fun _ => rfl, fun _ => rfl⟩
 
-theorem remove_expressions_documented :
-    Gen.C15.removeExprs = [("idx_to_remove_final", "ioutils.indices_load(idx_to_remove,numbered_from_1=numbered_from_1)"),
-      ("max_index", "ts.data.shape[0]"), ("ts.data", "np.delete(ts.data,idx_to_remove_final,axis=0)")]
-    ∧ Gen.C15.removeGuard = "any((idx<0oridx>=max_indexforidxinidx_to_remove_final))" := by decide
+/-- **Each of the six functions is `TiltStack(...)` → operation → `write_out(output_file)` → `return correct_order()`**:
+the constructor statement (all three arguments forwarded by keyword), every `write_out` statement, the return
+statement, and the order facts (constructor before every other use of the stack, every update of `ts.data` before the
+first `write_out`, the last `write_out` before the return, the return last). This is what makes `pipeline … op …`
+(about which `order_naturality`, `output_order_only_transposes`, `written_file_holds_result` speak) the shape of the
+real functions. -/
+theorem wrappers_documented : Gen.C15.wrappers = 
+      [("crop", ["v0 = TiltStack(tilt_stack=tilt_stack, input_order=input_order, output_order=output_order)", "v0.write_out(output_file)", "return v0.correct_order()", "order:construct<data-updates<write_out<return"]),
+          ("sort_tilts_by_angle", ["v0 = TiltStack(tilt_stack=tilt_stack, input_order=input_order, output_order=output_order)", "v0.write_out(output_file)", "return v0.correct_order()", "order:construct<data-updates<write_out<return"]),
+          ("remove_tilts", ["v0 = TiltStack(tilt_stack=tilt_stack, input_order=input_order, output_order=output_order)", "v0.write_out(output_file)", "return v0.correct_order()", "order:construct<data-updates<write_out<return"]),
+          ("bin", ["v0 = TiltStack(tilt_stack=tilt_stack, input_order=input_order, output_order=output_order)", "v0.write_out(output_file)", "return v0.correct_order()", "order:construct<data-updates<write_out<return"]),
+          ("split_stack_even_odd", ["v0 = TiltStack(tilt_stack=tilt_stack, input_order=input_order, output_order=output_order)", "v0.write_out(output_file_prefix + '_even.mrc', new_data=v1)", "v0.write_out(output_file_prefix + '_odd.mrc', new_data=v2)", "return (v0.correct_order(v1), v0.correct_order(v2))", "order:construct<data-updates<write_out<return"]),
+          ("flip_along_axes", ["v0 = TiltStack(tilt_stack=tilt_stack, input_order=input_order, output_order=output_order)", "v0.write_out(output_file)", "return v0.correct_order()", "order:construct<data-updates<write_out<return"])] := rfl
 
-theorem bin_expression_documented :
-    Gen.C15.binExpr = "downscale_local_mean(ts.data,(1,binning_factor,binning_factor))" := by decide
+/-- `crop`: sizes through `int(...)`, larger-than-stack requests refused, centre `size // 2`, start `centre - new // 2`,
+end `start + new`, rows sliced by the height window and columns by the width window -/
+theorem crop_expressions_documented : Gen.C15.cropBody = 
+      ["v0 = TiltStack(tilt_stack=tilt_stack, input_order=input_order, output_order=output_order)",
+      "if new_width is not None:",
+      "  new_width = int(new_width)",
+      "  if new_width > v0.width:",
+      "    raise ValueError",
+      "else:",
+      "  new_width = v0.width",
+      "if new_height is not None:",
+      "  new_height = int(new_height)",
+      "  if new_height > v0.height:",
+      "    raise ValueError",
+      "else:",
+      "  new_height = v0.height",
+      "v1, v2 = (v0.width // 2, v0.height // 2)",
+      "v3 = int(v1 - int(new_width) // 2)",
+      "v4 = int(v3 + int(new_width))",
+      "v5 = int(v2 - int(new_height) // 2)",
+      "v6 = int(v5 + int(new_height))",
+      "v0.data = v0.data[:, v5:v6, v3:v4]",
+      "v0.write_out(output_file)",
+      "return v0.correct_order()"] := rfl
 
-theorem split_outputs_documented :
-    Gen.C15.splitWrites = [("_even.mrc", "even_stack"), ("_odd.mrc", "odd_stack")]
-    ∧ Gen.C15.splitReturn = "(ts.correct_order(even_stack),ts.correct_order(odd_stack))" := by decide
+/-- `sort_tilts_by_angle`: angles loaded WITHOUT sorting, `np.argsort`, fancy-index on axis 0 -/
+theorem sort_expressions_documented : Gen.C15.sortBody = 
+      ["v0 = TiltStack(tilt_stack=tilt_stack, input_order=input_order, output_order=output_order)",
+      "v1 = ioutils.tlt_load(input_tilts, sort_angles=False)",
+      "v2 = np.argsort(v1)",
+      "v0.data = v0.data[v2, :, :]",
+      "v0.write_out(output_file)",
+      "return v0.correct_order()"] := rfl
+
+/-- `remove_tilts`: `indices_load` with the caller's `numbered_from_1`, bounds check `idx < 0 or idx >= n`, `np.delete` on axis 0 -/
+theorem remove_expressions_documented : Gen.C15.removeBody = 
+      ["v0 = TiltStack(tilt_stack=tilt_stack, input_order=input_order, output_order=output_order)",
+      "v1 = ioutils.indices_load(idx_to_remove, numbered_from_1=numbered_from_1)",
+      "v2 = v0.data.shape[0]",
+      "if any((v3 < 0 or v3 >= v2 for v3 in v1)):",
+      "  raise IndexError",
+      "v0.data = np.delete(v0.data, v1, axis=0)",
+      "v0.write_out(output_file)",
+      "return v0.correct_order()"] := rfl
+
+theorem bin_expression_documented : Gen.C15.binBody = 
+      ["binning_factor = int(binning_factor)",
+      "v0 = TiltStack(tilt_stack=tilt_stack, input_order=input_order, output_order=output_order)",
+      "v0.data = downscale_local_mean(v0.data, (1, binning_factor, binning_factor))",
+      "v0.write_out(output_file)",
+      "return v0.correct_order()"] := rfl
+
+theorem split_outputs_documented : Gen.C15.splitBody = 
+      ["v0 = TiltStack(tilt_stack=tilt_stack, input_order=input_order, output_order=output_order)",
+      "v1 = []",
+      "v2 = []",
+      "if not v0.n_tilts == 1:",
+      "  for v3 in range(v0.n_tilts):",
+      "    if v3 % 2 == 0:",
+      "      v1.append(v0.data[v3, :, :])",
+      "    else:",
+      "      v2.append(v0.data[v3, :, :])",
+      "  v1 = np.stack(v1, axis=0)",
+      "  v2 = np.stack(v2, axis=0)",
+      "  if output_file_prefix:",
+      "    v0.write_out(output_file_prefix + '_even.mrc', new_data=v1)",
+      "    v0.write_out(output_file_prefix + '_odd.mrc', new_data=v2)",
+      "  return (v0.correct_order(v1), v0.correct_order(v2))",
+      "else:",
+      "  raise ValueError"] := rfl
+
+theorem flip_body_documented : Gen.C15.flipBody = 
+      ["v0 = TiltStack(tilt_stack=tilt_stack, input_order=input_order, output_order=output_order)",
+      "if not isinstance(axes, list):",
+      "  axes = [axes]",
+      "for v1 in axes:",
+      "  if v1 == 'x':",
+      "    v0.data = v0.data[:, ::-1, :]",
+      "  else:",
+      "    if v1 == 'y':",
+      "      v0.data = v0.data[:, :, ::-1]",
+      "    else:",
+      "      if v1 == 'z':",
+      "        v0.data = v0.data[::-1, :, :]",
+      "      else:",
+      "        raise ValueError",
+      "v0.write_out(output_file)",
+      "return v0.correct_order()"] := rfl
+
+/-- `TiltStack`: arrays are COPIED (`tilt_stack.copy()`), files read untransposed; `write_out` casts to the dtype of the
+loaded stack and writes untransposed; `correct_order` casts to the same dtype, then transposes -/
+theorem tiltstack_class_documented :
+    Gen.C15.initBody = 
+      ["if not isinstance(tilt_stack, np.ndarray):",
+      "  self.data = cryomap.read(tilt_stack, transpose=False)",
+      "  if self.data.shape == 2:",
+      "    self.data = np.expand_dims(self.data, axis=0)",
+      "else:",
+      "  self.data = tilt_stack.copy()",
+      "  if self.data.shape == 2:",
+      "    if input_order == 'xyz':",
+      "      self.data = np.expand_dims(self.data, axis=2)",
+      "    else:",
+      "      self.data = np.expand_dims(self.data, axis=0)",
+      "  if input_order == 'xyz':",
+      "    self.data = self.data.transpose(2, 1, 0)",
+      "self.data_type = self.data.dtype",
+      "self.input_order = input_order",
+      "self.current_order = 'zyx'",
+      "self.output_order = output_order",
+      "self.n_tilts, self.height, self.width = self.data.shape"]
+    ∧ Gen.C15.writeOutBody = 
+      ["if output_file:",
+      "  v0 = new_data if new_data is not None else self.data",
+      "  cryomap.write(v0, output_file, data_type=self.data_type, transpose=False)"]
+    ∧ Gen.C15.correctOrderBody = 
+      ["v0 = new_data if new_data is not None else self.data",
+      "if v0.dtype != self.data_type:",
+      "  v0 = v0.astype(self.data_type)",
+      "if self.current_order != self.output_order:",
+      "  return v0.transpose(2, 1, 0)",
+      "else:",
+      "  return v0"] := ⟨rfl, rfl, rfl⟩
+
+/-- `ioutils.indices_load` (csv: positions of the `True` cells, always 0-based; text file: `np.loadtxt`; list/array:
+`np.asarray`, refused when empty) and `ioutils.tlt_load` (arrays and lists pass through, files are sorted only on request) -/
+theorem loaders_documented :
+    Gen.C15.indicesLoadBody = 
+      ["if isinstance(input_data, str):",
+      "  if input_data.endswith('.csv'):",
+      "    v0 = pd.read_csv(input_data)",
+      "    if 'Removed' in v0.columns:",
+      "      v0 = v0[~v0['Removed']]",
+      "    v1 = v0['ToBeRemoved'].to_numpy().nonzero()[0]",
+      "    numbered_from_1 = False",
+      "  else:",
+      "    v1 = np.loadtxt(input_data, dtype=int)",
+      "else:",
+      "  if isinstance(input_data, list) or isinstance(input_data, np.ndarray):",
+      "    v1 = np.asarray(input_data)",
+      "    if len(v1) == 0:",
+      "      raise ValueError",
+      "  else:",
+      "    raise ValueError",
+      "if numbered_from_1:",
+      "  v1 = v1 - 1",
+      "return v1"]
+    ∧ Gen.C15.tltLoadBody = 
+      ["if isinstance(input_tlt, np.ndarray):",
+      "  if input_tlt.size == 0:",
+      "    raise ValueError",
+      "  else:",
+      "    return input_tlt",
+      "else:",
+      "  if isinstance(input_tlt, list):",
+      "    if len(input_tlt) == 0:",
+      "      raise ValueError",
+      "    else:",
+      "      return np.asarray(input_tlt)",
+      "  else:",
+      "    if isinstance(input_tlt, str):",
+      "      if input_tlt.endswith('.mdoc'):",
+      "        v0 = mdoc.Mdoc(input_tlt)",
+      "        v1 = v0.get_image_feature('TiltAngle').values",
+      "      else:",
+      "        if input_tlt.endswith('.xml'):",
+      "          v1 = get_data_from_warp_xml(input_tlt, 'Angles', node_level=1)",
+      "        else:",
+      "          v1 = one_value_per_line_read(input_tlt)",
+      "      if sort_angles:",
+      "        v1 = np.sort(v1)",
+      "      return v1",
+      "    else:",
+      "      raise ValueError"] := ⟨rfl, rfl⟩
 
 /-! ### sorting by tilt angle -/
 
@@ -155,13 +371,13 @@ theorem remove_accepts_iff (base1 : Bool) (idxs : List Int) (imgs : List ι) :
 
 /-- **Even/odd splitting interleaves back to the input**, for every stack -/
 theorem interleave_evens_odds (imgs : List ι) : interleave (evens imgs) (odds imgs) = imgs := by
-  simp only [evens, odds, even_rule_documented.1, if_true]
+  simp only [evens, odds, even_rule_documented, if_true]
   exact interleave_sel imgs
 
 /-- the even stack holds the images at positions 0, 2, 4, …, the odd stack those at 1, 3, 5, … -/
 theorem evens_odds_positions (imgs : List ι) (k : Nat) :
     (evens imgs)[k]? = imgs[2 * k]? ∧ (odds imgs)[k]? = imgs[2 * k + 1]? := by
-  simp only [evens, odds, even_rule_documented.1, if_true]
+  simp only [evens, odds, even_rule_documented, if_true]
   exact ⟨(sel_getElem? imgs).1 k, (sel_getElem? imgs).2 k⟩
 
 theorem split_spec (imgs e o : List ι) (h : splitTilts imgs = .ok (e, o)) :
@@ -173,8 +389,8 @@ theorem split_spec (imgs e o : List ι) (h : splitTilts imgs = .ok (e, o)) :
     · cases h
     · cases h
       refine ⟨interleave_evens_odds imgs, ?_, ?_, by omega⟩
-      · simp only [evens, even_rule_documented.1, if_true]; exact (sel_length imgs).1
-      · simp only [odds, even_rule_documented.1, if_true]; exact (sel_length imgs).2
+      · simp only [evens, even_rule_documented, if_true]; exact (sel_length imgs).1
+      · simp only [odds, even_rule_documented, if_true]; exact (sel_length imgs).2
 
 /-! ### flips -/
 
@@ -395,7 +611,7 @@ theorem ops_wf (a : A3 α) (h : a.WF) :
       · split at hs
         · cases hs
         · cases hs
-          simp only [evens, odds, even_rule_documented.1, if_true, List.mem_cons, List.not_mem_nil, or_false] at hr
+          simp only [evens, odds, even_rule_documented, if_true, List.mem_cons, List.not_mem_nil, or_false] at hr
           rcases hr with rfl | rfl
           · exact rect_of_mem h (fun x hx => (sel_sublist a.v).1.subset hx)
           · exact rect_of_mem h (fun x hx => (sel_sublist a.v).2.subset hx)
@@ -422,6 +638,215 @@ theorem ops_wf (a : A3 α) (h : a.WF) :
           show Rect a.d0 (newH.getD a.d1) (newW.getD a.d2) _
           exact cropV_rect h (by omega) (by omega)
 
+/-! ### hardening pass: angle lists of another length, index sources, which axis a flip reverses, casts, the six functions -/
+
+/-- **An angle list of another length than the stack is outside the statement — this is what the code does with it.**
+Whenever the call returns, it returns exactly one image per ANGLE (not per image) and there are at most as many angles as
+images; so the result has all the images iff there is one angle per image: fewer angles silently drop images. -/
+theorem sort_length_iff (le : κ → κ → Bool) (angles : List κ) (imgs r : List ι) (h : sortTilts le angles imgs = .ok r) :
+    r.length = angles.length ∧ angles.length ≤ imgs.length ∧ (r.length = imgs.length ↔ angles.length = imgs.length) := by
+  unfold sortTilts at h
+  simp only at h
+  split at h
+  · rename_i hall
+    cases h
+    have hle := (argsort_all_lt le angles imgs.length).1 hall
+    have hlen : ((argsort le angles).filterMap (imgs[·]?)).length = angles.length := by
+      rw [filterMap_get_length imgs _ (by simpa using hall), argsort_length]
+    exact ⟨hlen, hle, by rw [hlen]⟩
+  · cases h
+
+/-- the two branches: more angles than images raise (numpy's `IndexError`), fewer return a shorter stack -/
+theorem sort_length_mismatch (le : κ → κ → Bool) (angles : List κ) (imgs : List ι) :
+    (imgs.length < angles.length → sortTilts le angles imgs = .error .angleIndex)
+    ∧ (angles.length ≤ imgs.length → ∃ r, sortTilts le angles imgs = .ok r ∧ r.length = angles.length) := by
+  constructor
+  · intro hlt
+    unfold sortTilts
+    simp only
+    rw [if_neg]
+    intro hall
+    have := (argsort_all_lt le angles imgs.length).1 hall
+    omega
+  · intro hle
+    have hall := (argsort_all_lt le angles imgs.length).2 hle
+    refine ⟨_, by unfold sortTilts; simp only; rw [if_pos hall], ?_⟩
+    rw [filterMap_get_length imgs _ (by simpa using hall), argsort_length]
+
+/-- **Index sources.** A list/array goes through `remove_spec` as is; a csv file forces 0-based numbering whatever the
+caller passes and is not refused when nothing is flagged (nothing is removed); a text file with two or more entries behaves
+like the list; a text file with exactly ONE entry makes the bounds check raise `TypeError` (`np.loadtxt` returns a 0-d
+array) — recorded as known finding C15-K1 by the harness. -/
+theorem remove_sources (base1 : Bool) (idxs : List Int) (imgs : List ι) :
+    removeTiltsSrc .list base1 idxs imgs = removeTilts base1 idxs imgs
+    ∧ (idxs ≠ [] → removeTiltsSrc .csv base1 idxs imgs = removeTilts false idxs imgs)
+    ∧ removeTiltsSrc .csv base1 [] imgs = .ok imgs
+    ∧ (2 ≤ idxs.length → removeTiltsSrc .txt base1 idxs imgs = removeTilts base1 idxs imgs)
+    ∧ (idxs.length = 1 → removeTiltsSrc .txt base1 idxs imgs = .error .scalarIdx) := by
+  refine ⟨rfl, ?_, rfl, ?_, ?_⟩
+  · intro hne
+    have : idxs.isEmpty = false := by simpa using hne
+    simp [removeTiltsSrc, this]
+  · intro h2
+    have h1 : idxs.length ≠ 1 := by omega
+    have h0 : idxs.isEmpty = false := by cases idxs with | nil => simp at h2 | cons _ _ => rfl
+    simp [removeTiltsSrc, h1, h0]
+  · intro h1
+    simp [removeTiltsSrc, h1]
+
+/-- an omitted `numbered_from_1` means 1-based: index `k` removes the `k`-th image counted from 1 -/
+theorem remove_default_is_one_based (idxs : List Int) (imgs : List ι) :
+    removeTilts (base1Of none) idxs imgs = removeTilts true idxs imgs := by
+  rw [defaults_resolve.1]
+
+/-- **Which axis a flip reverses** (the involution alone is also satisfied by the identity): on a rectangular
+`n × H × W` stack, numpy axis 0 maps tilt `z` to `n-1-z`, axis 1 maps row `j` to `H-1-j`, axis 2 maps column `i` to `W-1-i`;
+with `flip_table_documented`: `'x'` reverses the rows (IMOD `clip flipx`), `'y'` the columns, `'z'` the tilt order. -/
+theorem flip_reverses (d : α) {n H W : Nat} {v : L3 α} (h : Rect n H W v) {z j i : Nat} (hz : z < n) (hj : j < H) (hi : i < W) :
+    get3 d (flipAxis 0 v) z j i = get3 d v (n - 1 - z) j i
+    ∧ get3 d (flipAxis 1 v) z j i = get3 d v z (H - 1 - j) i
+    ∧ get3 d (flipAxis 2 v) z j i = get3 d v z j (W - 1 - i) := by
+  rcases get3_flipAxis d h hz hj (i := i) with h' | h'
+  · exact h'
+  · omega
+
+theorem flip_named_convention (v : L3 α) :
+    flipAll ["x"] v = .ok (v.map List.reverse) ∧ flipAll ["y"] v = .ok (v.map (fun img => img.map List.reverse))
+    ∧ flipAll ["z"] v = .ok v.reverse := ⟨rfl, rfl, rfl⟩
+
+/-- the `axes` argument: a single string is one axis, a list is applied left to right, anything else (a tuple) is refused -/
+theorem flip_argument_kinds (v : L3 α) :
+    (∀ a, flipArg (.one a) v = flipAll [a] v) ∧ (∀ as, flipArg (.list as) v = flipAll as v) ∧ flipArg .other v = .error .axis :=
+  ⟨fun _ => rfl, fun _ => rfl, rfl⟩
+
+/-- **`astype(int16)` truncates toward zero**: for a block mean `num/den`, the stored integer `t` has the sign of the mean,
+`|t| ≤ |mean| < |t| + 1`; an integral mean is stored exactly. -/
+theorem trunc_toward_zero (q : Rat) :
+    (0 ≤ q.num → 0 ≤ truncI q ∧ truncI q * q.den ≤ q.num ∧ q.num < (truncI q + 1) * q.den)
+    ∧ (q.num ≤ 0 → truncI q ≤ 0 ∧ q.num ≤ truncI q * q.den ∧ (truncI q - 1) * q.den < q.num) :=
+  tdiv_toward_zero q.num q.den q.den_pos
+
+theorem trunc_of_int (n : Int) : truncI (n : Rat) = n := by
+  simp [truncI]
+
+/-- **The file holds the result also through the dtype cast**: `write_out` and `correct_order` apply the same cast `c`
+(the dtype of the loaded stack), and the cast commutes with file I/O and transposition. -/
+theorem written_file_holds_result_cast {β : Type} (c : α → β) (d : α) (inXyz outZyx : Bool)
+    (op : A3 α → Except Err (List (A3 α))) (inp : Input α)
+    (o : Out α) (hop : ∀ rs, op (load d inXyz inp) = .ok rs → ∀ r ∈ rs, r.WF)
+    (h : pipeline d inXyz outZyx true op inp = .ok o) :
+    (outZyx = true → (o.cast c).written.map readMrc = (o.cast c).returned)
+    ∧ (outZyx = false → (o.cast c).written.map (fun f => transpose3 (c d) (readMrc f)) = (o.cast c).returned) := by
+  obtain ⟨h1, h2⟩ := written_file_holds_result d inXyz outZyx op inp o hop h
+  constructor
+  · intro ho
+    have := h1 ho
+    simp only [Out.cast, List.map_map]
+    rw [← this, List.map_map]
+    apply List.map_congr_left
+    intro f _
+    exact readMrc_map c f
+  · intro ho
+    have := h2 ho
+    simp only [Out.cast, List.map_map]
+    rw [← this, List.map_map]
+    apply List.map_congr_left
+    intro f _
+    show transpose3 (c d) (readMrc (Mrc.map c f)) = A3.map c (transpose3 d (readMrc f))
+    rw [readMrc_map, transpose3_map]
+
+/-- **The written file holds the result for the real functions** (not only for an abstract `op`): sorting, removing (any
+index source), splitting, flipping (any argument kind) and cropping, on every input whose loaded stack is rectangular. -/
+theorem file_holds_result_for_each_function (d : α) (inXyz outZyx : Bool) (inp : Input α) (hin : (load d inXyz inp).WF) (o : Out α) :
+    let holds := (outZyx = true → o.written.map readMrc = o.returned)
+      ∧ (outZyx = false → o.written.map (fun f => transpose3 d (readMrc f)) = o.returned)
+    (∀ (le : κ → κ → Bool) angles, pipeline d inXyz outZyx true (opSort le angles) inp = .ok o → holds)
+    ∧ (∀ src base1 idxs, pipeline d inXyz outZyx true (opRemoveSrc src base1 idxs) inp = .ok o → holds)
+    ∧ (pipeline d inXyz outZyx true opSplit inp = .ok o → holds)
+    ∧ (∀ arg, pipeline d inXyz outZyx true (opFlipArg arg) inp = .ok o → holds)
+    ∧ (∀ newW newH, pipeline d inXyz outZyx true (opCrop newW newH) inp = .ok o → holds) := by
+  intro holds
+  obtain ⟨wsort, wremove, wsplit, wflip, wcrop⟩ := ops_wf (κ := κ) (load d inXyz inp) hin
+  refine ⟨?_, ?_, ?_, ?_, ?_⟩
+  · intro le angles h
+    exact written_file_holds_result d inXyz outZyx _ inp o (fun rs hrs => wsort le angles rs hrs) h
+  · intro src base1 idxs h
+    refine written_file_holds_result d inXyz outZyx _ inp o ?_ h
+    intro rs hrs
+    -- every source reduces to `removeTilts` or returns the stack unchanged
+    unfold opRemoveSrc at hrs
+    cases hs : removeTiltsSrc src base1 idxs (load d inXyz inp).v with
+    | error e => rw [hs] at hrs; cases hrs
+    | ok v =>
+      rw [hs] at hrs; cases hrs
+      intro r hr
+      simp only [List.mem_singleton] at hr; subst hr
+      have hmem : ∀ x ∈ v, x ∈ (load d inXyz inp).v := by
+        cases src with
+        | list =>
+          obtain ⟨_, _, _, _, _, hsub, _⟩ := remove_spec base1 idxs _ v hs
+          exact fun x hx => hsub.subset hx
+        | txt =>
+          simp only [removeTiltsSrc] at hs
+          split at hs
+          · cases hs
+          · split at hs
+            · cases hs; exact fun x hx => hx
+            · obtain ⟨_, _, _, _, _, hsub, _⟩ := remove_spec base1 idxs _ v hs
+              exact fun x hx => hsub.subset hx
+        | csv =>
+          simp only [removeTiltsSrc] at hs
+          split at hs
+          · cases hs; exact fun x hx => hx
+          · obtain ⟨_, _, _, _, _, hsub, _⟩ := remove_spec false idxs _ v hs
+            exact fun x hx => hsub.subset hx
+      exact rect_of_mem hin hmem
+  · intro h
+    exact written_file_holds_result d inXyz outZyx _ inp o (fun rs hrs => wsplit rs hrs) h
+  · intro arg h
+    refine written_file_holds_result d inXyz outZyx _ inp o ?_ h
+    intro rs hrs
+    cases arg with
+    | one a =>
+      by_cases hv : a = "x" ∨ a = "y" ∨ a = "z"
+      · exact wflip [a] rs (by intro x hx; simp at hx; subst hx; exact hv) hrs
+      · have := flip_rejects_unknown_axis a (load d inXyz inp).v (by
+          refine ⟨fun e => hv (Or.inl e), fun e => hv (Or.inr (Or.inl e)), fun e => hv (Or.inr (Or.inr e))⟩)
+        simp [opFlipArg, flipArg, this, Except.map] at hrs
+    | list as =>
+      by_cases hv : ∀ x ∈ as, x = "x" ∨ x = "y" ∨ x = "z"
+      · exact wflip as rs hv hrs
+      · -- an unknown name somewhere in the list: the call raises, nothing is returned
+        exfalso
+        have hnone : ∃ x ∈ as, flipNamed x = none := by
+          simp only [not_forall] at hv
+          obtain ⟨x, hx, hnot⟩ := hv
+          refine ⟨x, hx, ?_⟩
+          simp only [flipNamed, flip_table_documented, List.lookup]
+          have h1 : (x == "x") = false := by simpa using fun e => hnot (Or.inl e)
+          have h2 : (x == "y") = false := by simpa using fun e => hnot (Or.inr (Or.inl e))
+          have h3 : (x == "z") = false := by simpa using fun e => hnot (Or.inr (Or.inr e))
+          simp [h1, h2, h3]
+        have herr : ∀ (l : List String) (w : L3 α), (∃ x ∈ l, flipNamed x = none) → flipAll l w = .error .axis := by
+          intro l
+          induction l with
+          | nil => intro w ⟨x, hx, _⟩; simp at hx
+          | cons a t ih =>
+            intro w ⟨x, hx, hn⟩
+            simp only [flipAll]
+            cases hfa : flipNamed a with
+            | none => rfl
+            | some k =>
+              simp only
+              apply ih
+              rcases List.mem_cons.1 hx with rfl | hx'
+              · rw [hfa] at hn; cases hn
+              · exact ⟨x, hx', hn⟩
+        simp [opFlipArg, flipArg, herr as _ hnone, Except.map] at hrs
+    | other => simp [opFlipArg, flipArg, Except.map] at hrs
+  · intro newW newH h
+    exact written_file_holds_result d inXyz outZyx _ inp o (fun rs hrs => wcrop newW newH rs hrs) h
+
 /-! ### non-vacuity: concrete inputs meeting the hypotheses -/
 
 example := sort_perm_sorted (fun (a b : Int) => decide (a ≤ b)) (by intro a b c; simp; omega) (by intro a b; simp; omega)
@@ -436,5 +861,17 @@ example : (crop (some 2) (some 1) (ofFlat 1 3 5 (List.range 15))).toOption.map (
 example : (bin 2 (ofFlat 1 2 4 [(1 : Rat), 2, 3, 4, 5, 6, 7, 8])).toOption.map (·.v) = some [[[(7 : Rat) / 2, 11 / 2]]] := by decide +kernel
 example : (ofFlat 2 3 4 (List.range 24)).WF := by unfold A3.WF Rect; decide
 example : (transpose3 0 (ofFlat 1 2 3 [1, 2, 3, 4, 5, 6])).v = [[[1], [4]], [[2], [5]], [[3], [6]]] := by decide
+
+example : ∃ r, sortTilts (fun (a b : Int) => decide (a ≤ b)) [30, -10] ["a", "b", "c"] = .ok r ∧ r.length = 2 :=
+  (sort_length_mismatch _ [30, -10] ["a", "b", "c"]).2 (by decide)
+example : sortTilts (fun (a b : Int) => decide (a ≤ b)) [3, 1, 2, 0] ["a", "b", "c"] = .error .angleIndex :=
+  (sort_length_mismatch _ [3, 1, 2, 0] ["a", "b", "c"]).1 (by decide)
+example : removeTiltsSrc .csv true [1, 3] ["a", "b", "c", "d"] = .ok ["a", "c"] := by decide
+example : removeTiltsSrc .txt true [2] ["a", "b", "c", "d"] = .error .scalarIdx := by decide
+example : removeTiltsSrc .txt true [2, 4] ["a", "b", "c", "d"] = .ok ["a", "c"] := by decide
+example : flipArg (.one "x") [[[1, 2], [3, 4]]] = .ok [[[3, 4], [1, 2]]] := by decide
+example : flipArg .other [[[1, 2], [3, 4]]] = .error .axis := by decide
+example : truncI ((-7 : Rat) / 2) = -3 ∧ truncI ((7 : Rat) / 2) = 3 ∧ truncI (-(1 : Rat) / 4) = 0 := by decide +kernel
+example : Rect 2 2 2 [[[1, 2], [3, 4]], [[5, 6], [7, 8]]] := by unfold Rect; decide
 
 end CryoCat.C15
